@@ -484,9 +484,12 @@ vtop_init(kdump_ctx_t *ctx)
 
 	rwlock_rdlock(&ctx->shared->lock);
 	if (axres != ADDRXLAT_OK) {
-		/* Try again next time if memory was short now. */
-		if (axres == ADDRXLAT_ERR_NOMEM)
-			ctx->xlat->dirty = true;
+		/* The translation system has been reset and is not set up
+		 * (in particular, it lacks the methods that the format's
+		 * late init installs). Try again next time, so the failure
+		 * is reported again instead of handing out that system.
+		 */
+		ctx->xlat->dirty = true;
 		return addrxlat2kdump(ctx, axres);
 	}
 
